@@ -35,7 +35,9 @@ def mk_descs(rng, n, **kw):
              'steps': rng.randint(*kw.get('steps', (3, 14))), 'frag': kw.get('frag', 0.0),
              'close_mode': kw.get('close_mode'), 'garbage': kw.get('garbage', 0.0), 'race': kw.get('race', 0.0),
              'on_close_raises': kw.get('on_close_raises', False), 'app_raises_at_close': kw.get('app_raises_at_close', False),
-             'out_frag': kw.get('out_frag', False)}
+             'out_frag': kw.get('out_frag', False), 'close_during_on_close': kw.get('close_during_on_close', 0)}
+        if callable(d['close_during_on_close']):
+            d['close_during_on_close'] = d['close_during_on_close'](rng)
         if callable(d['out_frag']):
             d['out_frag'] = d['out_frag'](rng)
         if callable(d['app_raises_at_close']):
@@ -54,7 +56,8 @@ def run_desc(d, post=None):
     sc = Scenario(random.Random(d['seed']), role=d['role'], lenreq=d['lenreq'], hostile=d['hostile'],
                   with_close=d['with_close'], steps=d['steps'], frag=d.get('frag', 0.0), close_mode=d.get('close_mode'),
                   garbage=d.get('garbage', 0.0), race=d.get('race', 0.0), on_close_raises=d.get('on_close_raises', False),
-                  app_raises_at_close=d.get('app_raises_at_close', False), out_frag=d.get('out_frag', False))
+                  app_raises_at_close=d.get('app_raises_at_close', False), out_frag=d.get('out_frag', False),
+                  close_during_on_close=d.get('close_during_on_close', 0))
     sc.post = post
     sc.desc = d
     if post is None:
